@@ -399,6 +399,38 @@ def relay_probe():
     return st
 
 
+def relay_same_schedules(seed, count):
+    """Neighbourhood of the known finding: the faulty member f first asks members for signatures over payloads of ITS OWN
+    under (session, id) - possibly a different one per member, possibly never completing that broadcast - and then relays a
+    foreign, completely signed payload for the SAME (session, id) under its own transport identity.  What reaches a
+    callback (if anything) is the payload that travelled with the verified signature list (the known finding, accepted by
+    the deviation cfg) - never the payload the member remembered from f's own request, which only that member signed."""
+    r = vlib.rng(seed, "c13relaysame")
+    out = []
+    for _ in range(count):
+        n = r.choice([3, 4, 4, 5, 6])
+        f = r.randint(1, n)
+        hon = [m for m in range(1, n + 1) if m != f]
+        h = r.choice(hon)
+        s, i = r.choice(SESS), r.choice(IDS)
+        ph = P(h, r.choice(["x", "y"]))
+        st = [{"ev": "Cfg", "n": n, "faulty": [f]}]
+        own = {m: P(f, r.choice(["y", "z", "q"])) for m in hon}
+        asked = r.sample(hon, r.randint(1, len(hon)))
+        first = [fsig(f, m, s, i, own[m]) for m in asked]
+        if r.random() < 0.5:
+            st += first + [bcast(h, s, i, ph)]
+        else:
+            st += [bcast(h, s, i, ph)] + first
+        targets = r.sample(hon, r.randint(1, len(hon)))
+        st += [fsend(f, x, s, i, ph, exact(n, s, i, ph)) for x in targets]
+        if r.random() < 0.5:   # ... and afterwards its own payload, where a complete list can still be had
+            pl = own[asked[0]]
+            st += [fsig(f, m, s, i, pl) for m in hon] + [fsend(f, x, s, i, pl, exact(n, s, i, pl)) for x in r.sample(hon, 1)]
+        out.append(st)
+    return out
+
+
 def mutators():
     def flip_sig_ok(t):
         for e in t:
@@ -546,6 +578,10 @@ def run(tier, seed):
     # the dedicated probe of the known finding: executed on every run
     before = len(o.known)
     vlib.conformance(o, FAMILY, "BcastDKGTrace", "BcastDKGTrace.cfg", "c13", [relay_probe()], tag="probe", dev_cfgs=DEV)
+    if o.violations:
+        return vlib.finish(o, "model_checking", RULE, ASSUMPTIONS)
+    vlib.conformance(o, FAMILY, "BcastDKGTrace", "BcastDKGTrace.cfg", "c13", relay_same_schedules(seed, 40 if thorough else 8),
+                     tag="relaysame", dev_cfgs=DEV, max_report=4)
     if o.violations:
         return vlib.finish(o, "model_checking", RULE, ASSUMPTIONS)
     if len(o.known) == before:
